@@ -68,7 +68,7 @@ def findings():
 def seeded():
     S = os.path.join(VERIF, "seeded")
     out = ["## Appendix C — seeded defects and the checks that catch them (generated from `seeded/*/meta.json`)", "",
-           "Ids `-1`, `-2`: first round of sub-agents; `-3`, `-4`: second round; `-5`, `-6`: third round; `-7`, `-8`: fourth round; `-9`, `-10`: fifth round; `-11`, `-12`: sixth round. `caught by` lists every check that was run against the patched copy and printed a "
+           "Ids `-1`, `-2`: first round of sub-agents; `-3`, `-4`: second round; `-5`, `-6`: third round; `-7`, `-8`: fourth round; `-9`, `-10`: fifth round; `-11`, `-12`: sixth round; `-13`, `-14`: seventh round. `caught by` lists every check that was run against the patched copy and printed a "
            "`VIOLATION` line with exit code 1 (number of unlisted violations in brackets); checks that were run and stayed silent are listed under `silent`.", "",
            "| id | seeded change (sub-agent's title) | what it needs to manifest | repo tests | demo patched/clean | caught by | silent |", "|---|---|---|---|---|---|---|"]
     n = caught = 0
